@@ -50,6 +50,8 @@ def truth(v, st=None):
             return True
         if isinstance(cell, IntSetCell):
             raise Unsupported("truthiness of a symbolic-key dict")
+    if v.__class__.__name__ == "SymComp":
+        return v.exists(None, st)
     raise Unsupported(f"truthiness of {v!r}")
 
 
@@ -287,6 +289,8 @@ def contains(container, item, st):
             return z3.Or(*parts) if parts else False
         if isinstance(cell, IntSetCell):
             return z3.Select(cell.present, int_term(item))
+    if container.__class__.__name__ == "SymComp":
+        return container.exists(item, st)
     raise Unsupported(f"membership in {container!r}")
 
 
